@@ -87,6 +87,12 @@ def install(reg):
         ("C07-path-info-is-a-suffix-of-the-decoded-path", "PATH_INFO", "self.request.path.endswith(env_get(ENV, 'PATH_INFO'))"),
         ("C07-prefix-plus-path-info-restores-the-path", "PATH_INFO", "implies(self.channel.server.adj.url_prefix != '' and self.request.path.startswith(self.channel.server.adj.url_prefix + '/'),"
                                                                      " self.channel.server.adj.url_prefix + env_get(ENV, 'PATH_INFO') == self.request.path)"),
+        ("C07-path-info-is-the-whole-path-when-the-prefix-does-not-apply", "PATH_INFO",
+         "implies(not self.request.path.startswith('//') and (self.channel.server.adj.url_prefix == '' or (self.request.path != self.channel.server.adj.url_prefix"
+         " and not self.request.path.startswith(self.channel.server.adj.url_prefix + '/'))), env_get(ENV, 'PATH_INFO') == self.request.path)"),
+        ("C07-leading-slashes-collapse-to-one", "PATH_INFO",
+         "implies(self.request.path.startswith('//') and self.channel.server.adj.url_prefix == '',"
+         " env_get(ENV, 'PATH_INFO').startswith('/') and not env_get(ENV, 'PATH_INFO').startswith('//'))"),
         ("C07-url-scheme-from-the-request", "wsgi.url_scheme", "env_get(ENV, 'wsgi.url_scheme') == self.request.url_scheme"),
         ("C07-remote-addr-is-the-peer", "REMOTE_ADDR", "env_get(ENV, 'REMOTE_ADDR') == self.channel.addr[0]"),
     ]
